@@ -126,7 +126,13 @@ func dumpLeaves(repo, name string) {
 		}
 		inl := func(c *ssa.Function) bool {
 			o, _ := c.Object().(*types.Func)
-			return o != nil && !o.Exported() && c.Pkg != nil && load.IsLib(c.Pkg.Pkg.Path()) && len(c.Blocks) > 0 && os.Getenv("NOINLINE") == ""
+			if o == nil || c.Pkg == nil || len(c.Blocks) == 0 || os.Getenv("NOINLINE") != "" {
+				return false
+			}
+			if strings.Contains(c.Pkg.Pkg.Path(), "/internal/") && load.IsModule(c.Pkg.Pkg.Path()) {
+				return true
+			}
+			return !o.Exported() && load.IsLib(c.Pkg.Pkg.Path())
 		}
 		ls, err := ir.Leaves(fn, ir.LeafOptions{Forward: true, Effects: true, MaxPaths: 100000, Inline: inl})
 		if err != nil {
